@@ -376,6 +376,9 @@ func (h *harness) evalRequest(c Case, lim *hx.Rand, record bool) (*failure, Case
 			if p.stats.CtxReads > 0 {
 				h.run.Count("shape:context-read")
 			}
+			if p.stats.CtxReadBelowConn > 0 {
+				h.run.Count("shape:ancestor-context-read-below-default-cost-connection")
+			}
 			if p.stats.DupKeys > 0 {
 				h.run.Count("shape:repeated-response-key-in-one-selection-set")
 			}
@@ -692,6 +695,11 @@ func (h *harness) handWritten() {
 		{Query: `{ n(m: 10, c: 4) { x: cr } q: v(r: 1) n(m: 10, c: 4) { y: v(r: 5) cm { w: v(r: 7) } } n(m: 10, c: 4) { x: cr } }`, Default: DefaultCost{R: 1}},
 		{Query: `{ o: n(m: 3) { i1: v(r: 2) i1: v(r: 2) ... on N { i1: v(r: 2) } ...F } o: n(m: 3) { ...F pn { p } pn { p z } } } fragment F on N { i1: v(r: 2) cm { u: v(r: 1) } cm { u2: v(r: 1) } }`, Default: DefaultCost{R: 2, M: 2}},
 		{Query: `query Q($m: Big) { k(first: 5) { e: cm { v1: v(r: 1) } } k(first: 5) { e: cm { v2: v(r: 2) } e: cm { v3: v(r: $m) } } }`, Vars: map[string]VarVal{"m": {"int", "9"}}, Default: DefaultCost{}},
+		// an ancestor's cost context must still be visible below a default-cost connection (which only ADDS
+		// its max edge count to the context it received)
+		{Query: `{ tenant: n(r: 1, c: 7) { reports: items(first: 3) { edges { node { render: cr } } } } }`, Default: DefaultCost{R: 1}},
+		{Query: `{ a: n(r: 0, c: 5, m: 2) { items(last: 4) { edges { node { cr x: cm { y: v(r: 1) } items(first: 2) { edges { node { z2: cr } cursor } pageInfo { hasNextPage } } } } totalCount } } }`, Default: DefaultCost{R: 1, Set: true, C: 9}},
+		{Query: `{ items(first: 3) { edges { node { a: cr b: crm(c: 6) { c: cr items(first: 2) { edges { node { d: cr } } } } } } } }`, Default: DefaultCost{}},
 		// operation choice
 		{Query: `query A { a: v(r: 3) } query B { b: v(r: 5) } query C { c: n(m: 4) { d: v(r: 2) } }`, Default: DefaultCost{R: 1}},
 		// default cost with a multiplier and a context
